@@ -78,7 +78,8 @@ impl Check for LimitSessions {
         for _ in 0..n {
             let burst = if rng.chance(1, 3) { 1u64 } else { 0 };
             let i = rng.below(n_nodes as u64);
-            match rng.weighted(&[40, 16, 8, 5, 7, 4, 5]) {
+            match rng.weighted(&[40, 16, 8, 5, 7, 4, 5, 6]) {
+                7 => ops.push(jarr!["local", 0u64, burst, rng.below(2), rng.below(7), rng.chance(2, 3), rng.below(2)]),
                 0 => {
                     let role = Role::from_u(nodes[i as usize].i("role", 0) as u64);
                     let spec = gen_rspec(&mut rng, role, asn_for(role, i as usize));
@@ -111,7 +112,7 @@ impl Check for LimitSessions {
 
     fn info(&self) -> CheckInfo {
         CheckInfo {
-            rule: "1-2 real sessions (eBGP / iBGP, optional add-path receive) with a per-family prefix limit of 1, 2, 3 or 5 (one in five without), an optional import policy that rejects one prefix per family; ops announce / replace / withdraw one prefix (path ids 0-2), announce 2-4 prefixes in one UPDATE, drop and reconnect, the import policy switched on / off with a soft reset IN of every peer, waits, each optionally inside a burst that is not allowed to settle. Reference per session: the set of distinct prefixes announced and not withdrawn. At quiescence: ListPeer's received / accepted per family and GetTable's destinations / paths / accepted equal a recount of the RIB; a session whose set ever exceeded the maximum has received NOTIFICATION Cease / maximum number of prefixes reached, is closed and left no route; a session that never exceeded it has received no such NOTIFICATION and holds exactly its set. non-trivial = a session came within one prefix of its limit".into(),
+            rule: "1-2 real sessions (eBGP / iBGP, optional add-path receive) with a per-family prefix limit of 1, 2, 3 or 5 (one in five without), an optional import policy that rejects one prefix per family; ops announce / replace / withdraw one prefix (path ids 0-2), announce 2-4 prefixes in one UPDATE, drop and reconnect, the import policy switched on / off with a soft reset IN of every peer, waits, routes originated and deleted by the operator for the same prefixes (counted in the table totals, never in a peer's counters), each optionally inside a burst that is not allowed to settle. Reference per session: the set of distinct prefixes announced and not withdrawn. At quiescence: ListPeer's received / accepted per family and GetTable's destinations / paths / accepted equal a recount of the RIB; a session whose set ever exceeded the maximum has received NOTIFICATION Cease / maximum number of prefixes reached, is closed and left no route; a session that never exceeded it has received no such NOTIFICATION and holds exactly its set. non-trivial = a session came within one prefix of its limit".into(),
             components_real: vec!["accept_connection (per-session counters), PeerSession::{rx_update, handle_prefix_limit}, TableManager::{insert_route, remove_route, unregister_peer, collect_peer_stats, table_state}, table::Table::{insert, remove, drop, peer_stats, state}".into(), "GrpcService::{list_peer, get_table}, PeerView::update_stats and the conversion to api::Peer".into()],
             components_stubbed: vec!["TCP, clock, the peers".into()],
             assumptions: vec!["the limit counts the distinct prefixes a session has announced, whether or not import policy accepts them (as the per-session counter of the table does); the statement's bound on accepted prefixes follows from it".into()],
@@ -247,6 +248,21 @@ async fn run(case: Json, tol: Tolerate) -> Outcome {
                     let _ = t.w.grpc.reset_peer(tonic::Request::new(req)).await;
                 }
                 out.hit("op.import-policy-switched+soft-reset-in");
+            }
+            "local" => {
+                // the operator originates / deletes a route for one of the prefixes the peers use (path
+                // identifiers 0-1): table totals count it, per-peer counters and limits do not
+                let fam = op.at(3).as_usize() % 2;
+                let net = packet::PathNlri { path_id: op.at(6).as_u32(), nlri: prefix(fam, op.at(4).as_u64()) };
+                if op.at(5).as_bool() {
+                    let attrs = vec![packet::Attribute::new_with_value(packet::Attribute::ORIGIN, 0).unwrap(), packet::Attribute::new_with_bin(packet::Attribute::AS_PATH, vec![]).unwrap()];
+                    let nh = if fam == 0 { bgp::Nexthop::V4(Ipv4Addr::UNSPECIFIED) } else { bgp::Nexthop::V6(Ipv6Addr::UNSPECIFIED) };
+                    t.w.tables.insert_route(table::Source::local(), FAMS[fam], net, Some(nh), Arc::new(attrs), None, 0);
+                    out.hit("op.local-route-added");
+                } else {
+                    t.w.tables.remove_route(table::Source::local(), FAMS[fam], net, None, 0);
+                    out.hit("op.local-route-removed");
+                }
             }
             "wait" => {
                 t.advance(op.at(3).as_u64()).await;
